@@ -1,5 +1,6 @@
 """C07 — prolog/epilog preserve callee-saved state and keep frame areas disjoint (DESIGN.md section 6, C07)."""
 import re
+from concurrent.futures import ThreadPoolExecutor
 
 import vlib
 
@@ -200,7 +201,7 @@ def run_ras(res, h, rng, n):
     """RAStackAllocator: model placement in the implementation's sort order + the slot-layout monitor."""
     ops = ["ras 4:4:1:3,16:16:1:1,8:8:1:10,1:1:1:2,32:32:0:0,4:4:3:1,2:2:1:7,100:4:0:0"]
     ops += [gen_ras(rng) for _ in range(n)] + [gen_ras(rng, wild=True) for _ in range(n // 5)]
-    impl, rc, err = vlib.run_lines([str(h)], ops)
+    impl, rc, err = vlib.run_lines([str(h)], ops, timeout=7200)   # generous: a wall-clock timeout would be reported as a violation
     if rc != 0 or len(impl) != len(ops):
         def crashes(c):
             o, r, _ = vlib.run_lines([str(h)], c)
@@ -217,8 +218,8 @@ def run_ras(res, h, rng, n):
         m1.append("rasm %s | %s" % (o[4:], " ".join(t.split(":")[0] for t in w[3:]) or "-"))
         m2.append("rasmon %s | %s" % (o[4:], " ".join(w[1:])))
         idx.append(i)
-    o1, r1, _ = vlib.run_model(PID, m1)
-    o2, r2, _ = vlib.run_model(PID, m2)
+    o1, r1, _ = vlib.run_model(PID, m1, timeout=7200)
+    o2, r2, _ = vlib.run_model(PID, m2, timeout=7200)
     if len(o1) != len(idx) or len(o2) != len(idx):
         res.violation("driver protocol failure on RAStackAllocator ops", {}, False, key="protocol")
         return
@@ -298,9 +299,24 @@ def known_key(op, impl_line, reason):
     return "frame:%s:%s" % (reason.split()[0] if reason else "?", ARCHN[int(w[1])])
 
 
+def run_model_par(lines, workers=4, chunk=20000):
+    """vlib.run_model over chunks in parallel (the driver is stateless per line); keeps wall time low on a loaded machine"""
+    if len(lines) <= chunk:
+        return vlib.run_model(PID, lines, timeout=7200)
+    parts = [lines[i:i + chunk] for i in range(0, len(lines), chunk)]
+    with ThreadPoolExecutor(workers) as ex:
+        res = list(ex.map(lambda c: vlib.run_model(PID, c, timeout=7200), parts))
+    out, rc, err = [], 0, ""
+    for o, r, e in res:
+        out += o
+        if r != 0:
+            rc, err = r, e
+    return out, rc, err
+
+
 def judge(h, ops):
     """Runs harness, model and monitor. Returns (impl, model, mon) lists (mon[i] is None when not judged)."""
-    impl, rc, err = vlib.run_lines([str(h)], ops)
+    impl, rc, err = vlib.run_lines([str(h)], ops, timeout=7200)   # generous: a wall-clock timeout would be reported as a violation
     if rc != 0 or len(impl) != len(ops):
         return None, None, None, (rc, err)
     # the real update_func_frame calls report what they did to the frame; the model replays exactly that
@@ -316,11 +332,11 @@ def judge(h, ops):
                 t = next(obs).split()
                 return "uffr:%s:%s:%s:%s:%s:%d" % (t[0], t[1], t[2], t[3], t[4], 1 if t[5] == "Ok" else 0)
             mops[i] = re.sub(r"uff:\d+:[0-9a-f]+", rep, o)
-    model, rc2, err2 = vlib.run_model(PID, mops)
+    model, rc2, err2 = run_model_par(mops)
     if rc2 != 0 or len(model) != len(ops):
         return impl, None, None, (rc2, err2)
     idx = [i for i, (o, r) in enumerate(zip(ops, impl)) if r.startswith("ok ") and monitorable(o)]
-    mon_out, rc3, err3 = vlib.run_model(PID, ["mon " + impl[i][3:] for i in idx])
+    mon_out, rc3, err3 = run_model_par(["mon " + impl[i][3:] for i in idx])
     if rc3 != 0 or len(mon_out) != len(idx):
         return impl, model, None, (rc3, err3)
     mon = [None] * len(ops)
@@ -512,7 +528,7 @@ def run(res):
 def replay(data):
     ops = data["replay"].get("ops", [])
     h = vlib.build_harness("c07")
-    impl, rc, err = vlib.run_lines([str(h)], ops)
+    impl, rc, err = vlib.run_lines([str(h)], ops, timeout=7200)   # generous: a wall-clock timeout would be reported as a violation
     mon, _, _ = vlib.run_model(PID, [("rasmon %s | %s" % (o[4:], r[3:]) if o.startswith("ras ") else "mon " + r[3:].split(" uff ")[0])
                                      if r.startswith("ok ") else "x" for o, r in zip(ops, impl)])
     for o, r, m in zip(ops, impl, mon):
